@@ -219,8 +219,8 @@ func HistoryDomain() *Domain {
 //	dims: nclaims(0..2), policy, replicas(1..3), slots mask(3 bits), which claims pre-exist (mask over 2 templates x 3 ordinals = 6 bits),
 //	      per ordinal (3): absent | healthy | healthy with bad identity | healthy with bad storage | failed
 func ClaimsDomain() *Domain {
-	dims := []int{3, 2, 3, 8, 64, 5, 5, 5, 2}
-	d := &Domain{Name: "claims(3 ordinals, <=2 claim templates)", Dims: dims}
+	dims := []int{3, 2, 3, 8, 64, 5, 5, 5, 2, 64}
+	d := &Domain{Name: "claims(3 ordinals, <=2 claim templates, lagging claim cache)", Dims: dims}
 	d.Make = func(ix []int) *Scenario {
 		sc := &Scenario{Dom: ix}
 		s := &sc.Set
@@ -237,6 +237,8 @@ func ClaimsDomain() *Domain {
 			for o := 0; o < 3; o++ {
 				if ix[4]&(1<<(c*3+o)) != 0 {
 					sc.PVCs = append(sc.PVCs, fmt.Sprintf("c%d-foo-%d", c, o))
+				} else if len(ix) > 9 && ix[9]&(1<<(c*3+o)) != 0 {
+					sc.PVCsApiOnly = append(sc.PVCsApiOnly, fmt.Sprintf("c%d-foo-%d", c, o)) // in the API, not yet in the cache
 				}
 			}
 		}
